@@ -159,12 +159,25 @@ def r2(ctx):
             ctx.violation("operand/Coalesce", ctx.where(GET_VALUE, a["body"]), "COALESCE must return its first non-empty argument, starting with the first")
     ctx.covered("operand roles of string functions", len(checks) + 3, distinct_keys=list(checks) + ["Replace", "Substring", "Coalesce"])
     # capitalize: first char upper-cased, rest unchanged
+    # (evaluated, finite interpreter: words whose first letter is plain, accented, or has an upper-case form of several
+    # characters - the whole upper-case mapping is kept -, the empty word, a one-letter word)
+    import interp
     ch = ctx.anchor_hir("util::capitalize")
-    ns = names_of(ch)
-    ok = "to_uppercase" in ns and "next" in ns and "as_str" in ns
-    ctx.obligation(ok)
-    if not ok:
-        ctx.violation("primitive/capitalize", ctx.where("util::capitalize"), "capitalize must upper-case the first character and keep the rest")
+    cps = ctx.prog.fns["util::capitalize"]["params"]
+    bad = []
+    words = ("hello", "x", "", "\u00e9cole", "\u00dfeta", "\ufb01sh", "a b", "1abc")
+    for w in words:
+        try:
+            got = interp.Interp(prog=ctx.prog, max_steps=5000).run(ch, {cps[0]["id"]: w})
+        except interp.Undecided as e:
+            bad.append("cannot evaluate capitalize(%r): %s" % (w, e))
+            break
+        want = w[:1].upper() + w[1:]
+        if got != want:
+            bad.append("capitalize(%r) gives %r, expected %r" % (w, got, want))
+    ctx.obligation(not bad)
+    if bad:
+        ctx.violation("primitive/capitalize", ctx.where("util::capitalize"), "capitalize must upper-case the first character (its whole upper-case form) and keep the rest: %s" % "; ".join(bad[:3]))
 
 
 def r4(ctx):
